@@ -21,7 +21,7 @@ func init() {
 		Assume: []string{"writers in the concurrent sub-workload only add cells, so that GC(M_final) <= final is implied by the statement for every pass instant", "the activity sub-workload uses no constant from the code: 'in use' = touched at most 1 s of wall clock ago"},
 		Run:    runC16,
 	})
-	expectedProbes["C16"] = []string{"c16.condemned", "c16.boundary_cell", "c16.write_inside_pass", "c16.active_table_skipped", "c16.touched_after_long_idle", "c16.rows_wholly_condemned", "c16.idle_table_collected", "c16.union", "c16.intersection_untouched"}
+	expectedProbes["C16"] = []string{"c16.condemned", "c16.boundary_cell", "c16.write_inside_pass", "c16.active_table_skipped", "c16.touched_after_long_idle", "c16.rows_wholly_condemned", "c16.server_clock_skewed", "c16.idle_table_collected", "c16.union", "c16.intersection_untouched"}
 }
 
 func c16Rule(d *draws) *btapb.GcRule {
@@ -394,6 +394,16 @@ func c16Activity(r *Run, cfg *Stream) {
 	d := record(r.T.S("prog.0"), 16)
 	rule := &btapb.GcRule{Rule: &btapb.GcRule_MaxNumVersions{MaxNumVersions: 1}}
 	now := int64(1_700_000_000_000_000)
+	// the injected server clock is unrelated to the wall clock that stamps table activity: it
+	// may run hours ahead of it or behind it ("in use" is about wall-clock activity)
+	switch d.n(3) {
+	case 1:
+		now += int64(1+d.n(48)) * 3600 * 1e6
+		r.Probe("c16.server_clock_skewed")
+	case 2:
+		now -= int64(1+d.n(48)) * 3600 * 1e6
+		r.Probe("c16.server_clock_skewed")
+	}
 	clk := NewClock(now, 1_700_000_000_000_000_000)
 	w := NewBTWorld(r, engine, clk, "")
 	defer w.Destroy()
